@@ -15,6 +15,8 @@ fn queen_and_leaper_lookup_exact() {
         use crate::board::piece::{king::King, knight::Knight, pawn::Pawn, Precomputed, PrecomputedColor};
         assert!(*<Knight as Precomputed>::get_attacks(sq) == leaper_ref(s, &KNIGHT_DELTAS));
         assert!(*<King as Precomputed>::get_attacks(sq) == leaper_ref(s, &KING_DELTAS));
+        // (ledger row of vx/prelude/nodup.rs axiom_king_home_reach) a king on e1 / e8 does not reach g1, c1 / g8, c8 in one step
+        if s == 4 || s == 60 { assert!(*<King as Precomputed>::get_attacks(sq) & ((1u64 << (s + 2)) | (1u64 << (s - 2))) == 0); }
         assert!(*<Pawn as PrecomputedColor>::get_attacks(sq, Color::White) == leaper_ref(s, &WHITE_PAWN_DELTAS));
         assert!(*<Pawn as PrecomputedColor>::get_attacks(sq, Color::Black) == leaper_ref(s, &BLACK_PAWN_DELTAS));
     }
